@@ -360,6 +360,54 @@ int main(int argc, char** argv) {
   Harness H;
   H.long_path = string((1 << 19) - 1 - 4 - 3, 'P');  // path record of the maximal size
   vector<Op> alpha = MainAlphabet(thorough, with_long), cont = ContAlphabet();
+  if (args.GetInt("maxdeps", 0) != 0) {
+    // A dependency *list* at the record size limit (2^19 - 1 bytes = 3 words + 131068 ids): for every length around it,
+    // either RecordDeps refuses (and nothing malformed is written) or the record comes back on the next load; the
+    // records of the same session before and after it survive in both cases.
+    J mv = J::Arr();
+    uint64_t n_cases = 0;
+    if (shard == 0)
+    for (int n = 131066; n <= 131074; ++n) {
+      vfs::Disk d;
+      vfs::disk = &d;
+      bool ok_big = false;
+      {
+        World w({"o1", "o2x"});
+        DepsLog log;
+        string err;
+        log.OpenForWrite(kPath, &err);
+        vector<Node*> nodes;
+        for (int i = 0; i < n; ++i) nodes.push_back(w.state->GetNode("d" + to_string(i), 0));
+        Node* o1 = w.state->GetNode("o1", 0);
+        Node* o2 = w.state->GetNode("o2x", 0);
+        vector<Node*> one(1, nodes[0]), two(1, nodes[1]);
+        bool a = log.RecordDeps(o2, 1, one);
+        ok_big = log.RecordDeps(o1, 5, nodes);
+        bool b = log.RecordDeps(o2, 7, two);
+        log.Close();
+        if (!a || !b) H.Bad("maxdeps-small-record-refused", "n=" + to_string(n) + ": an ordinary record was refused");
+      }
+      DepsMap got;
+      H.CheckLoad(&d, &got, "list of " + to_string(n) + " dependencies", true);
+      ++n_cases;
+      auto i2 = got.find("o2x");
+      if (i2 == got.end() || i2->second.mtime != 7 || i2->second.deps != vector<string>(1, "d1"))
+        H.Bad("acknowledged-record-lost", "list of " + to_string(n) + " dependencies for o1 (RecordDeps returned " + (ok_big ? "true" : "false") +
+              "): the record of o2x written afterwards in the same session is not returned by the next load");
+      auto i1 = got.find("o1");
+      if (ok_big && (i1 == got.end() || (int)i1->second.deps.size() != n))
+        H.Bad("acknowledged-record-lost", "RecordDeps accepted a list of " + to_string(n) + " dependencies but the next load returns " +
+              (i1 == got.end() ? string("no record") : to_string(i1->second.deps.size()) + " dependencies") + " for o1");
+      if (!ok_big && i1 != got.end()) H.Bad("refused-record-present", "RecordDeps refused " + to_string(n) + " dependencies but a record for o1 is in the log");
+    }
+    for (auto& v : H.viols) { J o = J::Obj(); o.set("clause", v.clause); o.set("detail", v.detail.substr(0, 700)); o.set("trail", J::Arr()); mv.push(o); }
+    J out = J::Obj();
+    out.set("states", (long long)n_cases); out.set("transitions", (long long)n_cases); out.set("tears", 0LL); out.set("continuations", 0LL);
+    out.set("ops", (long long)(3 * n_cases)); out.set("loads", (long long)H.loads); out.set("garbage_tails", 0LL); out.set("crash_points", 0LL);
+    out.set("violations", mv); out.set("samples", J::Arr());
+    printf("%s\n", js::Dump(out).c_str());
+    return 0;
+  }
   J viols = J::Arr();
   J samples = J::Arr();
   uint64_t states = 0, transitions = 0, tears = 0, conts = 0, garbage = 0;
